@@ -14,20 +14,6 @@ call-layer model.)
 namespace PedVerif.Checker
 open PedVerif.Gen.TypeTables
 
-theorem bareNode_cases (env : Env) (o : BareOrigin) (v : Val) :
-    bareNode env o v = .ok false ∨ bareNode env o v = .raisedPed ∨ bareNode env o v = .raisedOther := by
-  have hne := bareNode_ne_true env o v
-  unfold bareNode at hne ⊢
-  by_cases hb : o.isBuiltin = true
-  · simp only [cfg_req_bare_builtin o hb, hb, cfg_bare o hb, Bool.not_true, Bool.false_eq_true, ↓reduceIte]
-    split <;> simp
-  · have hb' : o.isBuiltin = false := by simpa using hb
-    by_cases ht : o = .tType
-    · subst ht
-      simp only [cfg_req_tType, BareOrigin.isBuiltin, Bool.not_true, Bool.false_eq_true, ↓reduceIte]
-      split <;> simp
-    · simp [cfg_req_bare o hb' ht]
-
 /-- **C06 (checker level).** A bare generic is rejected with PedanticTypeCheckException for every value. -/
 theorem bare_rejects_every_value (env : Env) (orc : Nat → Val → Raw) (o : BareOrigin) (v : Val) :
     checkType env orc (.bare o) v = .reject ∨ checkType env orc (.bare o) v = .pedErr := by
